@@ -533,7 +533,7 @@ def lit_raises(ctx, st, exc):
 def enum_setup(ctx):
     names = ["A", "B"]
     members = {n: Rec("Color", attrs={"name": n}) for n in names}
-    kind = ["member", "name-text", "other-text", "int", "None"][ctx.choose(5, "val-kind")]
+    kind = ["member", "name-text", "other-text", "int", "None", "member-of-another-Enum(same name)"][ctx.choose(6, "val-kind")]
     serialize = ctx.choose(2, "serialize") == 1
     text = z3.String("val")
     if kind == "name-text":
@@ -541,7 +541,8 @@ def enum_setup(ctx):
         ctx.assume(text == z3.StringVal(names[which]))
     elif kind == "other-text":
         ctx.assume(z3.And(*[text != z3.StringVal(n) for n in names]))
-    val = {"member": members["A"], "name-text": text, "other-text": text, "int": z3.Int("val"), "None": None}[kind]
+    foreign = Rec("Shade", attrs={"name": "A"})  # a member of another Enum class, even with the name and value of a member of this one, is not a member
+    val = {"member": members["A"], "name-text": text, "other-text": text, "int": z3.Int("val"), "None": None, "member-of-another-Enum(same name)": foreign}[kind]
 
     def getitem(c, s_, a, k):
         key = a[0]
@@ -549,7 +550,7 @@ def enum_setup(ctx):
             for n in names:
                 if c.branch(key == z3.StringVal(n), f"enum-name=={n}"):
                     return members[n]
-        raise PyRaise(ExcVal("KeyError", origin="Enum[...]"))
+        raise PyRaise(ExcVal("KeyError", origin="Enum[...]"))  # (also for a member of another Enum given as the key: Enum lookup is by name text)
 
     def isinst(c, s_, a, k):
         return a[0] == "Color" or a[0] == "object"
@@ -558,8 +559,15 @@ def enum_setup(ctx):
         m.methods["__isinstance__"] = isinst
     typehint = Rec("EnumClass", attrs={"__members__": members}, methods={"__getitem__": getitem})
     typehint.name = "Color"
+
+    def isinstance_model(c, a, k):
+        if a[1] is typehint:
+            return isinstance(a[0], Rec) and a[0].cls == "Color"
+        if isinstance(a[1], ClassRef) and a[1].name == "Enum":  # the base class: true of the members of *every* Enum
+            return isinstance(a[0], Rec) and a[0].cls in ("Color", "Shade")
+        raise Unsupported("isinstance against another class")
     calls = {"is_subclass": lambda c, a, k: True, UNEXPECTED: raise_unexpected, "iter_to_set_str": lambda c, a, k: "{A,B}",
-             "isinstance": lambda c, a, k: (isinstance(a[0], Rec) and a[0].cls == "Color") if a[1] is typehint else Unsupported}
+             "isinstance": isinstance_model}
     env = {"val": val, "typehint": typehint, "serialize": serialize}
     return Setup(env=env, calls=calls, consts={"Enum": ClassRef("Enum")}, data=dict(kind=kind, val=val, members=members, serialize=serialize, names=names))
 
